@@ -10,7 +10,12 @@ use sip_types::header::typed::CSeq;
 use sip_types::header::HeaderError;
 use sip_types::msg::RequestLine;
 use sip_types::{CodeKind, Headers, Method, Name};
+#[cfg(not(feature = "ezk-verif"))]
 use std::time::{Duration, Instant};
+#[cfg(feature = "ezk-verif")]
+use std::time::Duration;
+#[cfg(feature = "ezk-verif")]
+use tokio::time::Instant;
 use tokio::time::{timeout, timeout_at};
 
 /// Client INVITE transaction. Used to receives responses to a INVITE request.
